@@ -67,7 +67,17 @@ def main(args):
                 emit.error("two inputs are named '%s': their outputs would overwrite each other" % basename)
             model_nodes[basename] = nodes
 
-    generate_target_files(emit, serializers, model_nodes)
+    """ outputs are named after the base name of a file: two different files of one base name cannot both be used """
+    stems = {}
+    for path in sorted(file_processor_.files):
+        known = stems.setdefault(get_basename(path), path)
+        if known != path:
+            emit.error("two different files named '%s' are used: %s and %s" % (get_basename(path), known, path))
+
+    try:
+        generate_target_files(emit, serializers, model_nodes)
+    except (EnvironmentError, UnicodeError) as e:
+        emit.error("cannot write the output: %s" % e)
 
     return model_nodes
 
